@@ -1357,9 +1357,12 @@ gssmic_mic = gss_book_spec('_ServerGSSMICAuth._process_mic', gss_mic_ok)
 
 # ---- host based: the signature is verified by the host key validated for the (resolved) client host, over
 # String(session_id) + msg, before the application is asked about the user
-HB_FIELDS = {'_trust_client_host': 'bool', '_known_client_hosts': 'opt[obj:KnownHosts]', '_peer_addr': 'str',
-             '_peer_port': 'int', '_session_id': 'bytes', '_owner': 'opt[obj:Owner]', '_loop': 'obj:Loop'}
-HB_CLASSES = {'SSHServerConnection': HB_FIELDS, 'KnownHosts': {}, 'Owner': {}, 'Loop': {}, 'Key': {}}
+from . import c04 as C04      # host-key trust decision and trust-set producer: verified under C04, used as callee contracts
+
+HB_FIELDS = dict(C04.MKH_CONN, **{
+    '_trust_client_host': 'bool', '_known_client_hosts': 'opt[any]', '_peer_addr': 'str',
+    '_peer_port': 'int', '_session_id': 'bytes', '_owner': 'opt[obj:Owner]', '_loop': 'obj:Loop'})
+HB_CLASSES = {'SSHServerConnection': HB_FIELDS, 'Owner': {}, 'Loop': {}}
 
 
 def getnameinfo_stub(cx):
@@ -1370,31 +1373,79 @@ def getnameinfo_stub(cx):
 getnameinfo_stub.modifies = ()
 
 
-def host_key_stub(cx):
-    k = cx.fresh('obj:Key', 'host_key')
-    return [Out(ret=k, event=('validate_host_key', (tuple(cx.args), k))), Out(exc=VExc('ValueError'))]
+def hb_verify_stub(cx):
+    r = cx.fresh('bool', 'verified')
+    return [Out(ret=r, event=('verify', (cx.recv, tuple(cx.args), r)))]
 
 
-host_key_stub.modifies = ()
+hb_verify_stub.modifies = ()
+
+
+def hb_resolved_host(c):
+    """the host name the key must be trusted FOR: the name the client claims (minus one trailing dot) only when
+    the server is configured to trust it, else the reverse lookup of the peer address (the address itself when the
+    lookup fails)"""
+    ch = c.arg('client_host')
+    n = z3.Length(ch)
+    claimed = z3.If(z3.SubString(ch, n - 1, 1) == z3.StringVal('.'), z3.SubString(ch, 0, n - 1), ch)
+    peer = c.events('peername')
+    gni = c.events('getnameinfo')
+    if gni:
+        (gargs, gret) = gni[0][1]
+        looked_up = z3.And(z3.BoolVal(bool(peer) and gargs[0] is peer[0][1][2]), z3.BoolVal(True))
+        resolved = gret.items[0].z
+    elif peer:
+        looked_up = z3.BoolVal(True)
+        resolved = peer[0][1][2].items[0].z
+    else:
+        looked_up = z3.BoolVal(False)
+        resolved = claimed
+    return claimed, z3.If(c.old('_trust_client_host'), claimed, resolved), \
+        z3.Or(c.old('_trust_client_host'), looked_up)
 
 
 def hb_post(c):
+    """True only if: the signature over String(session_id) + msg verified with the key that the host-key decision
+    (C04: listed and not revoked / CA rule / application override) accepts for key_data and for the RESOLVED host,
+    the peer address and port of THIS call, the trust sets used being exactly what known_client_hosts lists for that
+    same (resolved host, peer address); and then the application accepted the user"""
     from pyvc.builtins_model import be
     res = c.truthy(c.result_v)
-    hk = c.events('validate_host_key')
+    hk = c.calls('_validate_host_key')
+    mk = c.calls('_match_known_hosts')
     ver = c.events('verify')
     own = c.events('validate_host_based_user')
+    hk = [x for x in hk if x.get('exc') is None]
     if not hk or not ver or not own:
         return z3.Not(res)
-    (kargs, key), (recv, vargs, vr), (oargs, _oret) = hk[0][1], ver[0][1], own[0][1]
+    kargs, key = hk[0]['args'], hk[0]['ret']
+    (recv, vargs, vr), (oargs, _oret) = ver[0][1], own[0][1]
+    claimed, rh, rh_ok = hb_resolved_host(c)
     sid, msg = c.old('_session_id'), c.arg('msg')
     final = c.new_state.env.get('result')
-    return z3.Implies(res, z3.And(
-        z3.BoolVal(recv.addr == key.addr), kargs[3].z == c.arg('key_data'),
-        vargs[0].z == z3.Concat(z3.Concat(be(z3.IntVal(4), z3.Length(sid)), sid), msg),
-        vargs[1].z == c.arg('signature'), vr.z,
-        oargs[0].z == c.arg('username'), oargs[2].z == c.arg('client_username'),
-        c.truthy(final) if final is not None else z3.BoolVal(False)))
+    conj = [rh_ok, recv.z == key.z,
+            kargs[0].z == rh, kargs[1].z == c.old('_peer_addr'), kargs[2].z == c.old('_peer_port'),
+            kargs[3].z == c.arg('key_data'),
+            vargs[0].z == z3.Concat(z3.Concat(be(z3.IntVal(4), z3.Length(sid)), sid), msg),
+            vargs[1].z == c.arg('signature'), vr.z,
+            oargs[0].z == c.arg('username'), oargs[1].z == claimed, oargs[2].z == c.arg('client_username'),
+            c.truthy(final) if final is not None else z3.BoolVal(False)]
+    # the decision, evaluated on the trust sets in force (nothing writes them after the matcher call)
+    now = Ctx(c.ex, c.new_state, c.new_state, c.self_ref)
+    conj.append(C04.decision(now, rh, c.old('_peer_addr'), c.old('_peer_port'), c.arg('key_data'), r=key.z))
+    kch = c.oldv('_known_client_hosts')
+    configured = c.truthy(kch, c.old_state)
+    if mk:
+        margs = mk[0]['args']
+        conj += [configured, z3.BoolVal(len(mk) == 1), z3.BoolVal(margs[0] is kch), margs[1].z == rh,
+                 margs[2].z == c.old('_peer_addr'), z3.BoolVal(margs[3] is VNone),
+                 z3.BoolVal(c.new_state.calls.index(mk[0]) < c.new_state.calls.index(hk[0]))]
+        asif = Ctx(c.ex, c.old_state, c.new_state, c.self_ref,
+                   args={'known_hosts': kch, 'host': VStr(rh), 'addr': c.oldv('_peer_addr'), 'port': VNone})
+        conj.append(C04.mkh_post(asif))
+    else:
+        conj.append(z3.Not(configured))
+    return z3.Implies(res, z3.And(conj))
 
 
 def _hb_setup(ex, st):
@@ -1412,22 +1463,15 @@ validate_host_based_auth = Spec(
     classes=dict(HB_CLASSES, SocketModule={}), setup=_hb_setup,
     stubs={'self.get_extra_info': ev_stub('peername', 'tuple[str,int]'),
            'Loop.getnameinfo': getnameinfo_stub,
-           'self._match_known_hosts': ev_stub('match_known_hosts'),
-           'self._validate_host_key': host_key_stub,
-           'Key.verify': key_verify_stub,
+           'self._match_known_hosts': contract_stub(lambda: C04.match_known_hosts_conn),
+           'self._validate_host_key': contract_stub(lambda: C04.validate_host_key),
+           'key.verify': hb_verify_stub,
            'Owner.validate_host_based_user': owner_call('validate_host_based_user'),
            'await result': srv_await('await_result')},
     ensures=[('host-key-signature-over-session-id-and-request-then-user-accepted', hb_post)],
-    raises={'AttributeError': True})
-
-
-# quick tier: path models of these three are expensive to find (packet parsing + utf-8 decoding); sample fewer
-# paths for the CPython cross-check (the thorough tier replays all of them)
-for _sp, _n in ((process_userauth_request, 4), (hostbased_start, 5), (kbdint_start, 4)):
-    _sp.crosscheck_limit = _n
-# branch pruning only (unknown counts as feasible): the packet-parsing path conditions just run into the timeout
-for _sp in (process_userauth_request, hostbased_start, kbdint_start, password_start, publickey_start, gsskex_start):
-    _sp.feasible_timeout_ms = 400
+    # matcher failure (unreadable / malformed known hosts) and a closed connection end the attempt: nothing granted
+    raises={'AttributeError': True, 'ValueError': True, 'AssertionError': True})
+validate_host_based_auth.opaque_attrs = dict(C04.match_known_hosts_conn.opaque_attrs)
 
 
 # ====================================================================================================
